@@ -8,9 +8,11 @@ package main
 import (
 	"bytes"
 	"context"
+	"errors"
 	"fmt"
 	"sort"
 	"strings"
+	"time"
 
 	"github.com/hedzr/logg/slog"
 )
@@ -102,9 +104,57 @@ func c13ShortCounts(r *run) {
 			}
 			if len(d.got) != 1 || !bytes.Contains(d.got[0], []byte(msg)) || !bytes.HasSuffix(d.got[0], []byte("\n")) || bytes.IndexByte(d.got[0], 't') < 0 || !(d.got[0][0] == '{' || bytes.HasPrefix(d.got[0], []byte("time="))) {
 				r.violate(violation{What: "a destination did not receive the complete record in one Write while a sibling reported a short count without an error",
-					Input: map[string]any{"destination": name, "short_counting_destination": []string{"first", "second", "third"}[round%3], "format": map[bool]string{true: "logfmt", false: "json"}[round < 3]},
+					Input:  map[string]any{"destination": name, "short_counting_destination": []string{"first", "second", "third"}[round%3], "format": map[bool]string{true: "logfmt", false: "json"}[round < 3]},
 					Actual: fmt.Sprintf("%q", d.got)})
 			}
+		}
+	}
+}
+
+// c13FailOnce fails its n-th Write (1-based) and works otherwise.
+type c13FailOnce struct {
+	n, calls int
+	got      [][]byte
+}
+
+func (c *c13FailOnce) Write(p []byte) (int, error) {
+	c.calls++
+	if c.calls == c.n {
+		return 0, errors.New("device is down")
+	}
+	c.got = append(c.got, append([]byte(nil), p...))
+	return len(p), nil
+}
+
+// c13KeptList: an adapter of the application's own forwards records through WriteThru with an attribute list it keeps and
+// passes again. A destination that fails for one record leaves nothing behind: the list is still the caller's, and the
+// records after the failure carry exactly its attributes.
+func c13KeptList(r *run) {
+	for round := 0; round < 6; round++ {
+		flaky, healthy, errDev := &c13FailOnce{n: 2}, &c13FailOnce{}, &c13FailOnce{}
+		l := slog.New(fmt.Sprintf("c13kept-%d", round)).SetLevel(slog.InfoLevel).SetColorMode(false)
+		if round%2 == 1 {
+			l.SetJSONMode(true)
+		}
+		l.SetWriter(flaky)
+		l.AddWriter(healthy)
+		l.SetErrorWriter(errDev)
+		kept := make(slog.Attrs, 0, 8)
+		kept = append(kept, slog.NewAttr("shard", 7), slog.NewAttr("zone", "eu"))
+		var thru slog.LogSlogAware = l
+		for k := 1; k <= 3; k++ {
+			thru.WriteThru(context.Background(), slog.InfoLevel, time.Unix(int64(1700000000+k), 0), 0, fmt.Sprintf("forwarded-%d", k), kept)
+		}
+		r.seen(fmt.Sprintf("kept-list|%d", round))
+		ok := len(kept) == 2 && kept[0] != nil && kept[1] != nil && kept[0].Key() == "shard" && kept[1].Key() == "zone"
+		third := ""
+		if len(healthy.got) == 3 {
+			third = string(healthy.got[2])
+		}
+		if !ok || !strings.Contains(third, "shard") || !strings.Contains(third, "zone") || strings.Contains(third, "device is down") {
+			r.violate(violation{What: "a failing destination left something behind: the attribute list the caller of WriteThru keeps was rewritten, or the record after the failure does not carry exactly its attributes",
+				Input:  map[string]any{"call": "WriteThru(ctx, Info, t, 0, msg, kept) three times; the first normal destination fails for the second record", "json": round%2 == 1},
+				Actual: map[string]any{"kept_list_afterwards": fmt.Sprint(kept), "third_record_at_the_healthy_destination": third}})
 		}
 	}
 }
@@ -308,5 +358,6 @@ func runC13(r *run) {
 		}
 	}
 	c13ShortCounts(r)
+	c13KeptList(r)
 	slog.VerifResetGlobals()
 }
